@@ -63,13 +63,13 @@ func regCh[T any](name string, weight int, ctor string, gen func(*rand.Rand) (T,
 			}
 			return chVal[T]{ver, v}, err == nil
 		},
-		payload: func(v any, hasV bool, data []byte, res any, resOK bool) string {
+		payload: func(v any, hasV bool, data []byte, res any, resOK, same bool) string {
 			vt := vh.None()
 			if hasV {
 				x := v.(chVal[T])
 				vt = vh.Some(pr(x.Ver, x.V))
 			}
-			return vh.App(ctor, vt, resTerm(resOK, func() string { x := res.(chVal[T]); return pr(x.Ver, x.V) }))
+			return vh.App(ctor, vt, resTerm(resOK && !same, func() string { x := res.(chVal[T]); return pr(x.Ver, x.V) }))
 		},
 		rawHint: func(r *rand.Rand) []byte {
 			return []byte{vh.Pick(r, uint8(7), 7, 6, 5, 4, 3), hint, byte(r.IntN(3))}
@@ -99,12 +99,12 @@ func regOpaque[T any](name string, weight int, id int, gen func(*rand.Rand) T,
 			v, err := dec(data)
 			return v, err == nil
 		},
-		payload: func(v any, hasV bool, data []byte, res any, resOK bool) string {
-			same := false
+		payload: func(v any, hasV bool, data []byte, res any, resOK, same bool) string {
+			rt := false
 			if hasV && resOK {
-				same = reflect.DeepEqual(v.(chVal[T]).V, res.(T))
+				rt = reflect.DeepEqual(v.(chVal[T]).V, res.(T))
 			}
-			return vh.App("POpaque", vh.N(uint64(id)), vh.B(resOK), vh.B(same))
+			return vh.App("POpaque", vh.N(uint64(id)), vh.B(resOK), vh.B(rt))
 		},
 		rawHint: func(r *rand.Rand) []byte {
 			return []byte{vh.Pick(r, uint8(7), 7, 6, 5, 4, 3), hint, byte(r.IntN(2)), byte(r.IntN(3)), byte(r.IntN(4))}
